@@ -391,7 +391,7 @@ impl Gen {
             // one trading block after the other, now and then two trades in one block
             Some("blocks") => return if rng.chance(1, 4) { None } else { Some((1, *rng.pick(&[1u64, 5, 15, 60]))) },
             // one block per step, a second or a fraction of a second apart
-            Some("seconds") => return Some((1, *rng.pick(&[0u64, 1, 1]))),
+            Some("seconds") => return Some((1, *rng.pick(&[0u64, 0, 1]))),
             _ => {}
         }
         if self.profile.long_busy {
@@ -671,7 +671,8 @@ impl Gen {
                 return st;
             }
         }
-        if matches!(self.profile.prop.as_str(), "C06" | "C07" | "C05" | "C16") && rng.chance(1, 6) {
+        let p_boundary = if self.profile.marathon == Some("seconds") { 2 } else { 6 };
+        if matches!(self.profile.prop.as_str(), "C06" | "C07" | "C05" | "C16") && rng.chance(1, p_boundary) {
             if let Some(st) = self.gen_boundary(r, rng) {
                 return st;
             }
